@@ -310,3 +310,48 @@ def closure_expr_parents(prog, cbody, e):
             if i in ups:
                 out.append(ups[i])
     return parent, out
+
+
+
+def comparison_roots(body):
+    """canonical comparison expressions of a body: switch roots (Lt / Eq after canonicalisation) plus comparisons that
+    are only assigned (last operand of an && / || chain, closure return values). Returns list of (node id, E root, strict_sense)
+    where for assigned comparisons the raw op is canonicalised the same way (Lt(a,b) / Eq)."""
+    out = []
+    root_nodes = set()
+    for s_ in A.switches(body):
+        info = A.switch_info(body, s_)
+        r = info.root
+        if r.k == "bin" and r.extra in ("Lt", "Eq"):
+            out.append((s_, r, info))
+            if r.nid is not None:
+                root_nodes.add(r.nid)
+            if info.raw.nid is not None:
+                root_nodes.add(info.raw.nid)
+    tr = A.tracer(body, transparent=False)
+    for n in body.nodes:
+        if n.kind == "assign" and n.ev.get("rv") == "bin" and n.ev["op"] in ("Lt", "Le", "Gt", "Ge", "Eq", "Ne") and n.id not in root_nodes:
+            v = tr.node_value(n.id)
+            a, b = v.a
+            op = n.ev["op"]
+            neg = False
+            if op == "Ne":
+                op, neg = "Eq", True
+            elif op == "Ge":
+                op, neg = "Lt", True
+            elif op == "Gt":
+                a, b, op = b, a, "Lt"
+            elif op == "Le":
+                a, b, op, neg = b, a, "Lt", True
+            out.append((n.id, A.E("bin", [a, b], nid=n.id, extra=op), None))
+    return out
+
+
+def pin_comparisons(ctx, inst, body, table):
+    """table: list of (op, lhs predicate, rhs predicate, description). Each row must match exactly one canonical
+    comparison of the body (so `<=` vs `<` and swapped operands are distinguished)."""
+    roots = comparison_roots(body)
+    for (op, lp, rp, desc) in table:
+        hits = [nid for (nid, r, _) in roots if r.extra == op and lp(r.a[0]) and rp(r.a[1])]
+        ctx.check(len(hits) == 1, inst, "PIN", body.path, desc + " (found %d)" % len(hits), body.where(hits[0]) if hits else None,
+                  None if len(hits) == 1 else {"comparisons": [r.extra + "(" + r.a[0].show()[:40] + ", " + r.a[1].show()[:40] + ")" for (_, r, _) in roots][:12]})
